@@ -93,7 +93,7 @@ def check(run):
                       nincs=(0, 2), depth=3, p_fm=0.8, p_dm=0.8, p_amark=0.5, eh=0.0, fe=0.0, p_bad_args=0.03, p_cmark=0.4,
                       eh_modes=["true", "false", "raise"], ieh_modes=["true", "true", "false", "raise"], xcs=["boom", "boom", "abort", "sysexit", "kbint", "stopiter"], p_inh=0.25, p_lk=0.3, npy=(0, 2), routes=["context", "context", "unicode", "render"])
     g = rc.Gen(run.rng, prof)
-    n_base = 100 if not thorough else 900
+    n_base = 85 if not thorough else 800
     import itertools
     progs = []
     for _ in range(n_base):
@@ -104,7 +104,7 @@ def check(run):
                        eh=0.35, fe=0.1, p_fm=0.8, p_dm=0.8, p_amark=0.5, p_cmark=0.4,
                        eh_modes=["true", "false", "raise"], ieh_modes=["true", "true", "false", "raise"], xcs=["boom", "boom", "abort", "sysexit", "kbint", "stopiter"], p_inh=0.25, p_lk=0.3, npy=(0, 2), routes=["context", "context", "unicode", "render"])
     g2 = rc.Gen(run.rng, prof2)
-    progs += [g2.gen_prog() for _ in range(180 if not thorough else 1800)]
+    progs += [g2.gen_prog() for _ in range(150 if not thorough else 1600)]
     run.extra["programs"] = len(progs)
     for i in range(0, len(progs), 300):
         rc.check_batch(run, progs[i:i + 300], maxraise, "raise-%d" % (i // 300), coverage=True)
